@@ -461,6 +461,8 @@ StepInclude(S, m, c) ==
   IF x.r # "ok" THEN Fail(m, SubstErr(m, x))
   ELSE LET rid == Resolve(CurRes(m), x.v) IN
        IF rid = "" THEN Fail(m, Err("config", 0, "", "", "error opening"))
+       ELSE IF \E i \in 1..Len(m.ps) : m.ps[i].rid = rid
+            THEN Fail(m, Err("config", 0, "", "", "recursive include"))   \* a resource that (transitively) includes itself
        ELSE [m EXCEPT !.ps = Append(@, Frame(rid)), !.ev = Append(@, <<"open", rid>>)]
 
 StepImport(S, m, c) ==
